@@ -428,25 +428,16 @@ Section Round.
     | IRetry s => (d, e, i, Some (digits_val s))
     end.
 
-  Definition item_ok (it : item) : Prop :=
-    item_dom it = true /\
-    match it with IComment _ => True | _ => no_lead_ws (item_text it) = true end.
-
-  Lemma lstrip_sp : forall s, no_lead_ws s = true -> lstrip s = s.
-  Proof.
-    intros s H.
-    destruct s as [|c s]; [reflexivity|]. cbn [no_lead_ws lstrip] in *.
-    destruct (is_ws c); [discriminate | reflexivity].
-  Qed.
+  Definition item_ok (it : item) : Prop := item_dom it = true.
 
   Lemma pe_step_item : forall acc it, item_ok it -> pe_step py_int acc (item_line it) = acc_item acc it.
   Proof.
-    intros [[[d e] i] r] it [Hdom Hws]. destruct it as [s|s|s|s|s]; cbn [item_line item_text] in *.
+    intros [[[d e] i] r] it Hdom. unfold item_ok in Hdom. destruct it as [s|s|s|s|s]; cbn [item_line item_text] in *.
     - unfold pe_step. rewrite N.eqb_refl. reflexivity.
-    - unfold pe_step. cbn. rewrite (lstrip_sp s Hws). reflexivity.
-    - unfold pe_step. cbn. rewrite (lstrip_sp s Hws). reflexivity.
-    - unfold pe_step. cbn. rewrite (lstrip_sp s Hws). reflexivity.
-    - unfold pe_step. cbn. rewrite (lstrip_sp s Hws).
+    - unfold pe_step. cbn. reflexivity.
+    - unfold pe_step. cbn. reflexivity.
+    - unfold pe_step. cbn. reflexivity.
+    - unfold pe_step. cbn.
       unfold item_dom in Hdom. cbn [item_text] in Hdom.
       apply andb_true_iff in Hdom. destruct Hdom as [_ Hd]. apply andb_true_iff in Hd. destruct Hd as [Hne Hdig].
       rewrite py_int_digits; [reflexivity | destruct s; [discriminate | discriminate] | exact Hdig].
@@ -520,32 +511,29 @@ Section Round.
 
   (* ---- the guards give what the lemmas above need ---- *)
   Definition good_item (it : item) : bool :=
-    item_dom it && forallb (fun c => negb (exotic_nl c)) (item_text it)
-    && match it with IComment _ => true | _ => no_lead_ws (item_text it) end.
+    item_dom it && forallb (fun c => negb (exotic_nl c)) (item_text it).
   Definition good_block (b : block) : bool := nonemptyb b && forallb good_item b.
 
   Lemma guard_blocks : forall bs, guard bs = true -> forall b, In b bs -> good_block b = true.
   Proof.
-    intros bs H b Hb. unfold guard in H. apply andb_true_iff in H. destruct H as [H Hb'].
-    apply andb_true_iff in H. destruct H as [Hd Ha].
-    unfold guard_dom in Hd. unfold guard_F18a in Ha. unfold guard_F18b in Hb'.
-    rewrite forallb_forall in Hd, Ha, Hb'. specialize (Hd b Hb). specialize (Ha b Hb). specialize (Hb' b Hb).
+    intros bs H b Hb. unfold guard in H. apply andb_true_iff in H. destruct H as [Hd Ha].
+    unfold guard_dom in Hd. unfold guard_F18a in Ha.
+    rewrite forallb_forall in Hd, Ha. specialize (Hd b Hb). specialize (Ha b Hb).
     apply andb_true_iff in Hd. destruct Hd as [Hne Hd].
     unfold good_block. rewrite Hne. cbn [andb]. apply forallb_forall. intros it Hit.
-    rewrite forallb_forall in Hd, Ha, Hb'. unfold good_item.
-    rewrite (Hd it Hit), (Ha it Hit). cbn [andb]. specialize (Hb' it Hit). destruct it; exact Hb'.
+    rewrite forallb_forall in Hd, Ha. unfold good_item.
+    rewrite (Hd it Hit), (Ha it Hit). reflexivity.
   Qed.
 
   Lemma good_item_ok : forall it, good_item it = true -> item_ok it.
   Proof.
-    intros it H. unfold good_item in H. apply andb_true_iff in H. destruct H as [H Hw].
-    apply andb_true_iff in H. destruct H as [Hd _]. split; [exact Hd|]. destruct it; [exact I | exact Hw ..].
+    intros it H. unfold good_item in H. apply andb_true_iff in H. destruct H as [Hd _]. exact Hd.
   Qed.
 
   Lemma good_text_clean : forall it, good_item it = true -> clean (item_text it).
   Proof.
-    intros it H c Hc. unfold good_item in H. apply andb_true_iff in H. destruct H as [H _].
-    apply andb_true_iff in H. destruct H as [Hd Hx]. unfold item_dom in Hd. apply andb_true_iff in Hd.
+    intros it H c Hc. unfold good_item in H. apply andb_true_iff in H. destruct H as [Hd Hx].
+    unfold item_dom in Hd. apply andb_true_iff in Hd.
     destruct Hd as [Hcr _]. unfold no_crlf in Hcr. rewrite forallb_forall in Hcr, Hx.
     specialize (Hcr c Hc). specialize (Hx c Hc). unfold exotic_nl in Hx.
     destruct (is_nl c); [|reflexivity]. cbn [andb] in Hx. rewrite Hcr in Hx. discriminate.
@@ -813,14 +801,20 @@ Definition bs_F18a : list block := [[IData [97; 8232; 98]]].      (* data: a<U+2
 Definition bs_F18b : list block := [[IData [32; 120]]].           (* data:  x  (payload " x") *)
 
 Lemma refuted_F18a :
-  guard_dom bs_F18a = true /\ guard_F18a bs_F18a = false /\ guard_F18b bs_F18a = true /\
+  guard_dom bs_F18a = true /\ guard_F18a bs_F18a = false /\
   forall py_int, sse_of_lines py_int (splitlines (encode LF TFull bs_F18a)) <> map expected bs_F18a.
 Proof. repeat split; try (vm_compute; reflexivity). intros py_int H. vm_compute in H. discriminate H. Qed.
 
-Lemma refuted_F18b :
-  guard_dom bs_F18b = true /\ guard_F18a bs_F18b = true /\ guard_F18b bs_F18b = false /\
-  forall py_int, sse_of_lines py_int (splitlines (encode LF TFull bs_F18b)) <> map expected bs_F18b.
-Proof. repeat split; try (vm_compute; reflexivity). intros py_int H. vm_compute in H. discriminate H. Qed.
+(* F18b is fixed: the former witnesses (payload " x" sent as `data:  x`; TAB / NBSP / ideographic-space first) meet the
+   guard and come back unchanged, for every int() *)
+Definition bs_F18b_more : list block :=
+  [[IData [9; 34; 97; 34]; IData [160; 110]; IEvent [32; 32; 101]; IId [12288]; IData [32]]].
+Lemma regression_F18b : forall py_int,
+  guard bs_F18b = true /\ guard bs_F18b_more = true /\
+  sse_of_lines py_int (splitlines (encode LF TFull bs_F18b)) = map expected bs_F18b /\
+  sse_of_lines py_int (splitlines (encode CRLF TNone bs_F18b_more)) = map expected bs_F18b_more /\
+  e_data (hd (expected []) (map expected bs_F18b)) = [32; 120].
+Proof. intros py_int. repeat split; vm_compute; reflexivity. Qed.
 
 (* NDJSON: a record whose JSON text contains a raw U+2028 never reaches json.loads in one piece *)
 Definition nd_line_F18a : str := [34; 97; 8232; 98; 34].           (* "a<U+2028>b" with its quotes *)
